@@ -246,8 +246,9 @@ def _in_float_range(vf, vr):
     return all(x == 0 or _LO <= x <= _HI for x in mags)
 
 
-def _check_K(r, n, m, tag, out):
-    """K = kf / kr per environment (entry -> 'default' -> 0); None where kr is 0."""
+def _check_K(r, n, m, tag, out, reads=None):
+    """K = kf / kr per environment (entry -> 'default' -> 0); None where kr is 0.
+    reads: optional {how: ('ok', value) | ('exc', text)} already obtained from r (not read again)."""
     kd = _sub(R.k_dimension(n), R.k_dimension(m))
     kf, kr = r.kf, r.kr
     if not isinstance(kf, dict) and not isinstance(kr, dict):
@@ -274,12 +275,19 @@ def _check_K(r, n, m, tag, out):
     if unjudged:
         _NOTES["K_outside_float_range_not_claimed"] = _NOTES.get("K_outside_float_range_not_claimed", 0) + unjudged
     for how in ("equilibrium_constant", "K"):
-        try:
-            K = r.equilibrium_constant() if how == "equilibrium_constant" else r.K
-        except Exception as e:
-            if not unjudged:      # otherwise: an overflow of an unclaimed entry took the whole result with it
-                out.append(("%s:%s:%s:unexpected-exception" % (PID, how, tag), "%s: %s" % (type(e).__name__, e)))
-            continue
+        if reads is not None:
+            st, K = reads[how]
+            if st == "exc":
+                if not unjudged:
+                    out.append(("%s:%s:%s:unexpected-exception" % (PID, how, tag), K))
+                continue
+        else:
+            try:
+                K = r.equilibrium_constant() if how == "equilibrium_constant" else r.K
+            except Exception as e:
+                if not unjudged:      # otherwise: an overflow of an unclaimed entry took the whole result with it
+                    out.append(("%s:%s:%s:unexpected-exception" % (PID, how, tag), "%s: %s" % (type(e).__name__, e)))
+                continue
         if envs != [None] and not isinstance(K, dict):
             out.append(("%s:%s:%s:not-a-dict" % (PID, how, tag), "per-environment constants but K is %r" % (K,)))
             continue
@@ -613,6 +621,8 @@ HIST_RX = [("A -> B", si.DEFAULT), ("A + B -> C", si.MIXED[3]), ("-> 2 A", si.DE
            ("2 A + A -> 0 B + 2 C", si.MIXED[0])]            # orders 1/1, 2/1, 0/2, 3/2
 HIST_OPS = ["K", "EC", "kf=scalar", "kf=str", "kf=dict", "kf=zero", "kr=scalar", "kr=str", "kr=dict", "kr=zero",
             "set_k=scalars", "set_k=dict+zero", "split", "to_string", "dims", "kr=bad", "set_k=badkf", "fork", "swap"]
+HIST_OPS_CORE = ["K", "EC", "kf=scalar", "kf=dict", "kr=scalar", "kr=str", "kr=dict", "kr=zero", "set_k=scalars",
+                 "split", "kr=bad", "swap"]
 NET_OPS = ["K", "kf=scalar", "kr=scalar", "kr=zero", "kr=dict", "set_k=scalars"]
 NETHIST_OPS = ["h%d.%s" % (h, o) for h in (0, 1, 2) for o in NET_OPS] + ["netcopy"]
 
@@ -668,8 +678,8 @@ def _h_readK(r, how):
         return ("exc", "%s: %s" % (type(e).__name__, e))
 
 
-def _h_cmpK(r, fresh, how, where, out, hist):
-    a, b = _h_readK(r, how), _h_readK(fresh, how)
+def _h_cmpK(a, b, how, where, out, hist):
+    """a = _h_readK(object), b = _h_readK(fresh reaction)."""
     if a[0] == "exc" or b[0] == "exc":
         if a[0] != b[0]:      # both raising = the float-range limit of _in_float_range, not judged
             out.append(("%s:history:%s:%s:exception-differs-from-fresh-reaction" % (PID, how, where),
@@ -684,9 +694,12 @@ def _h_cmpK(r, fresh, how, where, out, hist):
 
 def _h_observe(r, c, model, where, out, hist):
     """All observers of r against a fresh Reaction(text, kf, kr) holding the model's constants."""
+    reads = {"K": _h_readK(r, "K")}                             # K first: before anything recomputes it
+    reads["equilibrium_constant"] = _h_readK(r, "equilibrium_constant")
     fresh = _h_fresh(c, model)
-    _h_cmpK(r, fresh, "K", where, out, hist)                    # K first: before anything recomputes it
-    _h_cmpK(r, fresh, "equilibrium_constant", where, out, hist)
+    fk = _h_readK(fresh, "K")
+    _h_cmpK(reads["K"], fk, "K", where, out, hist)
+    _h_cmpK(reads["equilibrium_constant"], fk, "equilibrium_constant", where, out, hist)
     for name, a, b in (("kf", r.kf, fresh.kf), ("kr", r.kr, fresh.kr)):
         p = _same_const(a, b)
         if p:
@@ -705,14 +718,15 @@ def _h_observe(r, c, model, where, out, hist):
                     % (hist, r.label, _us3(r.units_system))))
     tag = "history:" + where
     _check_split(r, c["s"], c["p"], L, tag, out, with_constants=True)
-    _check_K(r, c["n"], c["m"], tag, out)
+    _check_K(r, c["n"], c["m"], tag, out, reads=reads)
 
 
 def _h_apply(r, c, model, op, out, hist, olds):
     """Apply one operation; returns (r, model) (only 'swap' changes the object)."""
     kf, kr = model
     if op in ("K", "EC"):
-        _h_cmpK(r, _h_fresh(c, model), "K" if op == "K" else "equilibrium_constant", op, out, hist)
+        how = "K" if op == "K" else "equilibrium_constant"
+        _h_cmpK(_h_readK(r, how), _h_readK(_h_fresh(c, model), "K"), how, op, out, hist)
     elif op.startswith("kf=") or op.startswith("kr="):
         which, form = op.split("=")
         if form == "bad":
@@ -998,17 +1012,17 @@ def _spaces(tier):
     if thorough:
         sp.append(SeqSpace("hist: every operation sequence of length <=3 over %d operations on one Reaction, 4 reactions (orders 1/1, 2/1, 0/2, 3/2), all observers after EVERY operation"
                            % len(HIST_OPS), "hist", [{"rx": i, "mode": "every"} for i in rx_all], HIST_OPS, 3))
-        sp.append(SeqSpace("hist: every sequence of length <=4, 4 reactions, all observers after the last operation only (reads inside the sequence are checked as operations)",
-                           "hist", [{"rx": i, "mode": "last"} for i in rx_all], HIST_OPS, 4))
+        sp.append(SeqSpace("hist4: every sequence of length <=4 over the %d state-relevant operations, 4 reactions, all observers after the last operation (reads inside the sequence are checked as operations)"
+                           % len(HIST_OPS_CORE), "hist", [{"rx": i, "mode": "last"} for i in rx_all], HIST_OPS_CORE, 4))
         sp.append(SeqSpace("nethist: one Reaction shared by two RDNetworks: every sequence of length <=3 over %d operations (6 operations x 3 handles + network copy), 2 reactions"
                            % len(NETHIST_OPS), "nethist", [{"rx": 0}, {"rx": 1}], NETHIST_OPS, 3))
     else:
-        sp.append(SeqSpace("hist/quick: every operation sequence of length <=3 over %d operations on one Reaction (orders 2/1 and 0/2), all observers after EVERY operation"
-                           % len(HIST_OPS), "hist", [{"rx": 1, "mode": "every"}, {"rx": 2, "mode": "every"}], HIST_OPS, 3))
-        sp.append(SeqSpace("hist/quick: every sequence of length <=2, the other 2 reactions (orders 1/1, 3/2), observers after every operation",
-                           "hist", [{"rx": 0, "mode": "every"}, {"rx": 3, "mode": "every"}], HIST_OPS, 2))
-        sp.append(SeqSpace("hist/quick: every sequence of length <=3, 4 reactions, all observers after the last operation only",
-                           "hist", [{"rx": i, "mode": "last"} for i in rx_all], HIST_OPS, 3))
+        sp.append(SeqSpace("hist/quick: every operation sequence of length <=2 over %d operations on one Reaction, 4 reactions (orders 1/1, 2/1, 0/2, 3/2), all observers after EVERY operation"
+                           % len(HIST_OPS), "hist", [{"rx": i, "mode": "every"} for i in rx_all], HIST_OPS, 2))
+        sp.append(SeqSpace("hist/quick: every sequence of length <=3 over the %d operations, 2 reactions (orders 2/1, 0/2), all observers after the last operation (reads inside the sequence are checked as operations)"
+                           % len(HIST_OPS), "hist", [{"rx": 1, "mode": "last"}, {"rx": 2, "mode": "last"}], HIST_OPS, 3))
+        sp.append(SeqSpace("hist/quick: every sequence of length <=3 over the %d state-relevant operations, the other 2 reactions (orders 1/1, 3/2), observers after the last operation"
+                           % len(HIST_OPS_CORE), "hist", [{"rx": 0, "mode": "last"}, {"rx": 3, "mode": "last"}], HIST_OPS_CORE, 3))
         sp.append(SeqSpace("nethist/quick: one Reaction shared by two RDNetworks: every sequence of length <=2 over %d operations (6 operations x 3 handles + network copy), 2 reactions"
                            % len(NETHIST_OPS), "nethist", [{"rx": 0}, {"rx": 1}], NETHIST_OPS, 2))
     return sp
